@@ -24,7 +24,24 @@ def r_c15(toks):
 def r_c13(toks):
     return f"{'run_af' if toks[0] == 'AF' else 'run_packet'} {hex_to_coq(toks[1])}"
 
+def r_c14(toks):
+    return f"{'run_pes' if toks[0] == 'PES' else 'run_ppc'} false {hex_to_coq(toks[1])}"
+
 PROPS = {
+    "C14": dict(
+        props_files=["Props/C14.v"],
+        suites=["C14"],
+        render=r_c14,
+        known_when_model_differs="F5",
+        rule="all 256 stream ids x buffer lengths around the fixed header; start-code deviations; all 256 flag bytes x "
+             "PES_header_data_length in {0, need-1, need, need+1, need+3, 255} x buffer length in {end-2..end+1, end+30} x marker bits "
+             "set/random; all 256 values of the first optional-header byte; all 256 trick-mode bytes at each of the 8 positions the "
+             "preceding flags imply; PesParsedContents::from_bytes on steered buffers; random short buffers; distinct = distinct "
+             "case lines, every one evaluates every accessor of whatever is returned",
+        trusted=["13818-1 Table 2-21 / 2.4.3.7 as transcribed in coq/Spec/PesSpec.v"],
+        assumptions=["input bytes are < 256", "StreamId has no numeric accessor: its value is recovered from equality with the public constants and its Debug rendering",
+                     "PesExtension is opaque in the crate: only presence is observed"],
+    ),
     "C13": dict(
         props_files=["Props/C13.v"],
         suites=["C13"],
